@@ -89,6 +89,8 @@ def c06(run: Run):
         run.add("xz in=%s" % data.hex(), oracle=exp_ok_out(f["out"]), tag="c06:valid-nocheck")
         for i in range(len(data)):
             run.add("xz in=%s" % data[:i].hex(), oracle=exp_err(), tag="c06:truncate")
+    from .props import crc_cases
+    crc_cases(run)
     run.extra_cov["base_files"] = len(base) + len(none_files)
     run.extra_cov["exhaustive"] = "all single-bit flips and truncations of each base file"
 
